@@ -14,6 +14,6 @@ CONSTANTS
   NameStyles = {"alpha"}
   MaxSrc = 4
   EmitFile = "vectors.ndjson"
-INVARIANTS FnWalkIsLLVM FnIdempotent ModBuiltCorrect ModParsedTotal ModParsedCorrect ModIdempotent ModPrintedAgree
+INVARIANTS FnWalkIsLLVM FnIdempotent FnInsertShifts ModBuiltCorrect ModParsedTotal ModParsedCorrect ModIdempotent ModPrintedAgree
 CHECK_DEADLOCK FALSE
 ACTION_CONSTRAINT Emit
